@@ -399,19 +399,24 @@ pub fn corpus_schemas() -> Vec<(&'static str, &'static DataModelType)> {
     r.schemas
 }
 
+pub const CONST_PATHS: [&str; 4] = ["", "test_path", "é/ü", "a/rather/long/path/that/exceeds/sixty-four/bytes/so/that/any/blocking/shows"];
+
 macro_rules! const_keys {
     ($($t:ty),* $(,)?) => {{
-        let mut v: Vec<(&'static str, &'static DataModelType, [u8; 8])> = vec![];
+        let mut v: Vec<(&'static str, &'static DataModelType, [[u8; 8]; 4])> = vec![];
         $( {
-            const K: Key = Key::for_path::<$t>("test_path");
-            v.push((stringify!($t), <$t as Schema>::SCHEMA, K.to_bytes()));
+            const K0: Key = Key::for_path::<$t>(CONST_PATHS[0]);
+            const K1: Key = Key::for_path::<$t>(CONST_PATHS[1]);
+            const K2: Key = Key::for_path::<$t>(CONST_PATHS[2]);
+            const K3: Key = Key::for_path::<$t>(CONST_PATHS[3]);
+            v.push((stringify!($t), <$t as Schema>::SCHEMA, [K0.to_bytes(), K1.to_bytes(), K2.to_bytes(), K3.to_bytes()]));
         } )*
         v
     }};
 }
 
 /// keys evaluated in a const context (CTFE), for a sub-corpus covering every tag
-pub fn corpus_const_keys() -> Vec<(&'static str, &'static DataModelType, [u8; 8])> {
+pub fn corpus_const_keys() -> Vec<(&'static str, &'static DataModelType, [[u8; 8]; 4])> {
     const_keys!(
         bool, u8, u16, u32, u64, u128, i8, i16, i32, i64, i128, f32, f64, char, (), String, str,
         Option<u8>, Vec<u16>, [u16], (u8, i16), [u8; 3], BTreeMap<String, u32>, Result<u32, String>,
